@@ -295,6 +295,25 @@ def atom_rx(run: Any, key: Any, value: SymStr) -> Rx:
                 if r is None:
                     return Chars(CharSet())
                 return Seq(r, opt(Seq(lit(sep), SIGMA_STAR)))
+        # a piece of value.partition(c) (possibly of the case-folded value: folding keeps lengths for ASCII separators)
+        if isinstance(origin, Term) and origin.op == "strpart":
+            base, meth, sep, k = origin.args
+            folded = isinstance(base, Term) and base.op == "strmeth" and base.args[0] is value and base.args[1] in ("lower", "upper", "casefold")
+            if (base is value or folded) and meth == "partition" and len(sep) == 1 and sep.isascii():
+                seps = sep.lower() + sep.upper() if folded and sep.lower() != sep.upper() else sep
+                cset = Chars(CharSet.of(seps))
+                notsep = Chars(CharSet.of(seps).negate())
+                NS = star(notsep)
+                if k == 0:
+                    r = length_rx(notsep)
+                    return Seq(r, opt(Seq(cset, SIGMA_STAR))) if r is not None else Chars(CharSet())
+                if k == 2:
+                    r = length_rx(ANY)
+                    with_sep = Seq(NS, cset, r) if r is not None else None
+                    # without the separator the tail is "": length 0
+                    zero_ok = (c > 0 and const <= 0) or (c < 0 and const <= 0)
+                    alts = [x for x in (with_sep, NS if zero_ok else None) if x is not None]
+                    return Alt(*alts) if len(alts) > 1 else (alts[0] if alts else Chars(CharSet()))
         raise AtomError(f"length of {describe(origin)!r}")
     raise AtomError(f"atom {key!r}")
 
